@@ -8,6 +8,7 @@ import Qvnt.Lemmas.GenRegs3
 #print axioms Qvnt.Gen2.quant_get_vreg_by_eq
 #print axioms Qvnt.Gen2.foldl_ext_mem
 #print axioms Qvnt.Gen2.creg_get_by_mask_eq
+#print axioms Qvnt.Gen2.creg_fmt_eq
 #print axioms Qvnt.Gen2.creg_mul_eq
 #print axioms Qvnt.Gen2.creg_mul_assign_eq
 #print axioms Qvnt.Gen2.creg_set_of
